@@ -10,7 +10,8 @@ CONSTANTS Scenes, Mode, NCfg
 VARIABLES c, k
 vars == <<c, k>>
 
-Caps == {"neg", "zero", "one", "exact", "ample"}       \* capacity classes: -1, 0, 1, exactly what the scene needs, plenty
+\* capacity classes: -1, 0, 1, a few short of the need (the limit cuts THROUGH the last multi-row block), half of it, exactly the need, plenty
+Caps == {"neg", "zero", "one", "short1", "short2", "half", "exact", "ample"}
 Cfgs == [scene : Scenes, sleep : BOOLEAN, noisland : BOOLEAN, solver : {"Newton", "CG"}, cone : {"pyramidal", "elliptic"}, jac : {"dense", "sparse"},
          broadphase : {"nxn", "sap_tile", "sap_segmented"}, nworld : {0, 1, 3}, nconmax : Caps, njmax : Caps, nvmax : {"default", "neg", "zero", "one", "nv", "toolarge"}]
 
@@ -23,7 +24,8 @@ Outcome(x) == IF ModelAccepted(x) /\ DataAccepted(x) THEN "runs" ELSE "rejected"
 RandCfg(u) == [scene |-> RandomElement(Scenes), sleep |-> RandomElement(BOOLEAN), noisland |-> RandomElement({FALSE, FALSE, TRUE}), solver |-> RandomElement({"Newton", "Newton", "CG"}),
                cone |-> RandomElement({"pyramidal", "elliptic"}), jac |-> RandomElement({"dense", "sparse"}),
                broadphase |-> RandomElement({"nxn", "sap_tile", "sap_segmented"}), nworld |-> RandomElement({0, 1, 3, 3, 3}),
-               nconmax |-> RandomElement({"neg", "zero", "one", "exact", "exact", "ample", "ample"}), njmax |-> RandomElement({"neg", "zero", "one", "exact", "exact", "ample", "ample"}),
+               nconmax |-> RandomElement({"neg", "zero", "one", "short1", "half", "exact", "exact", "ample", "ample"}),
+               njmax |-> RandomElement({"neg", "zero", "one", "short1", "short2", "half", "exact", "exact", "ample", "ample"}),
                nvmax |-> RandomElement({"default", "default", "default", "neg", "zero", "one", "nv", "toolarge"})]
 Init == c = RandCfg(0) /\ k = 1
 Next == k < NCfg /\ c' = RandCfg(k) /\ k' = k + 1
